@@ -128,7 +128,7 @@ Theorem export_sealed_element_blames :
   forall ev m th ts k t l,
     ev th = Ok (VSealed k t l) ->
     deep ev (S m) (VArr (ts ++ [th])) = Err (Blame (lpol l)).
-Proof. intros. cbn [deep bind]. rewrite rev_unit. rewrite H. reflexivity. Qed.
+Proof. intros. cbn [deep]. rewrite rev_unit. cbn [deep_list bind]. rewrite H. reflexivity. Qed.
 
 (* ------------------------------------------------------------------ at the level of contracts *)
 
